@@ -375,7 +375,7 @@ func runC36TCP(r *vk.Rand, workers, opsBeforeClose int) c36TCPResult {
 }
 
 func checkC36(c *vk.Ctx) {
-	c.Rule = "(memory, schedule controlled) brokers with 0-4 established connections (MQTT 3.1.1/5, with and without subscriptions and unacknowledged messages) and optionally one more connection whose handler is parked at a schedule point (handler start before it registers with the wait group / after the limit test / after it is registered as a client) when Server.Close() is called and released 150 ms later or when Close has returned: " +
+	c.Rule = "(memory, schedule controlled) brokers with 0-4 established connections (MQTT 3.1.1/5, with and without subscriptions and unacknowledged messages) and optionally one more connection whose handler is parked at a schedule point (handler start before and after it registers with the wait group / after the limit test / inside the OnConnect, OnConnectAuthenticate and OnSessionEstablish hooks / after it is registered as a client / after CONNACK) when Server.Close() is called and released 150 ms later or when Close has returned: " +
 		"after Close returns every established connection is closed (MQTT 5: last packet DISCONNECT 0x8B), every handler that existed when Close was called has returned (global sequence numbers of handler return vs Close return), and the late connection is not served. " +
 		"(TCP) 4-16 goroutines dial and CONNECT on a real loopback listener, some dropping connections, Close() after a PRNG-chosen number of operations: connections that had their CONNACK before Close was called read EOF, connections admitted during shutdown are not left served, no socket is left open unserved, no goroutine with an attachClient frame exists when Close returns, later dials are not served. nontrivial = cases with >=1 established connection or a handler in the establishing phase at Close"
 	c.Assumptions = []string{"'handler alive' for the TCP part is decided from a goroutine dump taken right after Close returns (TCP cases run one at a time so no other broker's handlers exist in the process)",
@@ -386,7 +386,7 @@ func checkC36(c *vk.Ctx) {
 	for _, e := range ests {
 		for _, subs := range []bool{false, true} {
 			cases = append(cases, c36Case{Established: e, Subs: subs})
-			for _, pt := range []string{"attach.handler_start", "attach.limit_checked", "attach.registered", "attach.connack_sent"} {
+			for _, pt := range []string{"attach.handler_start", "attach.handler_registered", "attach.limit_checked", "hook.OnConnect", "hook.OnConnectAuthenticate", "hook.OnSessionEstablish", "attach.registered", "attach.connack_sent"} {
 				for _, lv := range []byte{4, 5} {
 					cases = append(cases, c36Case{Established: e, Subs: subs, ParkPoint: pt, LateVer: lv})
 				}
